@@ -322,6 +322,8 @@ class Gen:
             if self.lowprec and f == "divide":
                 f = "multiply"
             b = self.operand_like(sh)
+            if self.lowprec and f == "divide":
+                f = "multiply"      # (the operand just made may be the program's first low-precision leaf)
             ops = [{"h": a}, b]
             if r.random() < 0.5:
                 ops = ops[::-1]
@@ -760,6 +762,8 @@ class Gen:
             if self.lowprec and f == "divide":
                 f = "multiply"      # low-precision quotients leave the exact fragment
             val = self.operand_like(sh)
+            if self.lowprec and f == "divide":
+                f = "multiply"      # (the operand just made may be the program's first low-precision leaf)
             v = np.asarray(self.np.opnd(val))
             if f == "divide" and np.any(v == 0):
                 return False
